@@ -865,7 +865,22 @@ func (s *Server) InjectPacket(cl *Client, pk packets.Packet) error {
 // processPublish processes a Publish packet.
 func (s *Server) processPublish(cl *Client, pk packets.Packet) error {
 	if !cl.Net.Inline && !IsValidFilter(pk.TopicName, true) {
-		return nil
+		if pk.FixedHeader.Qos == 0 {
+			return nil
+		}
+
+		// QoS 1 and 2 publishes must be answered or the connection closed, as for
+		// topics the client is not authorised to write to (see below).
+		if cl.Properties.ProtocolVersion != 5 {
+			return s.DisconnectClient(cl, packets.ErrTopicNameInvalid)
+		}
+
+		ackType := packets.Puback
+		if pk.FixedHeader.Qos == 2 {
+			ackType = packets.Pubrec
+		}
+
+		return cl.WritePacket(s.buildAck(pk.PacketID, ackType, 0, pk.Properties, packets.ErrTopicNameInvalid))
 	}
 
 	if atomic.LoadInt32(&cl.State.Inflight.receiveQuota) == 0 {
